@@ -442,3 +442,43 @@ def update_option_dependence(ctx):
                             keys.add(t.slice.value if isinstance(t.slice, ast.Constant) else ast.unparse(t.slice))
     ctx.decided("cache-holds-exactly-the-structural-entries", "frame", keys == {"hydraulic_data_sorting", "hydraulic_matrix"},
                 witness="entries written to net['_internal_data']: %s" % sorted(keys))
+
+
+# ---------------------------------------------------------------------------------------------
+# bounded stand-ins for the update path (lexsort / CSR pointer / cached-structure code is permutation and
+# prefix-sum code outside the SMT fragment -- section 3, E3); labelled bounded, never counted as proved
+
+@unit("C07", "bounded/update_matrix", functions=[BSM + ":build_system_matrix"], engine="bounded")
+def update_matrix_bounded(ctx):
+    from pvc.harness import venv_run
+    big = ctx.tier == "thorough"
+    inp = {"what": "update_matrix", "max_nodes": 3, "max_branches": 3 if big else 2, "seed": ctx.seed}
+    res = venv_run("bounded.py", inp, timeout=3000)
+    scope = ("build_system_matrix(heat_mode=False) on ALL hydraulic pits with <= %d nodes (type none / fixed pressure / "
+             "pressure-controlled, >= 1 fixed), <= %d branches with arbitrary distinct ends, every placement of the "
+             "pressure-control branches, random non-zero value columns: plain call vs first call with "
+             "only_update_hydraulic_matrix vs second call on the cached structure after spsolve used the cached matrix "
+             "and all value columns changed; dense matrices and load vectors compared" % (inp["max_nodes"], inp["max_branches"]))
+    for cls, label in (("distinct", "update-path-equals-plain/distinct-coo-positions"),
+                       ("duplicate", "update-path-equals-plain/duplicate-coo-positions")):
+        r = res[cls]
+        ctx.bounded(label, r["ok"], scope + ("; class: COO positions pairwise distinct" if cls == "distinct" else
+                                             "; class: a pressure-control branch whose controlled node is one of its own ends "
+                                             "(two COO entries at one matrix position)"),
+                    r["cases"], witness=r["witness"],
+                    replay={"handler": "bounded", "input": inp, "expected": "matrices and load vectors agree"} if not r["ok"] else None)
+
+
+@unit("C07", "bounded/update_pipeline", functions=["pandapipes.pipeflow:pipeflow", "pandapipes.pipeflow:hydraulics",
+                                                    BSM + ":build_system_matrix"], engine="bounded")
+def update_pipeline_bounded(ctx):
+    from pvc.harness import venv_run
+    inp = {"what": "update_pipeline"}
+    res = venv_run("bounded.py", inp, timeout=3000)
+    ctx.bounded("reused-internal-data-with-changed-loads-equals-fresh-calculation", res["ok"],
+                "one meshed 5-junction network (4 pipes with 1/2/3 sections, valve, 2 sinks, source) x {water, lgas} x "
+                "use_numba False/True x {nikuradse, swamee-jain}: 4 successive pipeflow calls with reuse_internal_data and "
+                "only_update_hydraulic_matrix, loads changed between the calls (incl. all loads zero), each compared with a "
+                "fresh calculation of a copy stripped of every underscore entry (rtol 1e-9; same exception class if both raise)",
+                res["cases"], witness=res["witness"],
+                replay={"handler": "bounded", "input": inp, "expected": "results agree"} if not res["ok"] else None)
